@@ -740,9 +740,58 @@ def d5c_raw_text(chk: Check) -> None:
                      "gives {!r}, expected {!r}".format(got, want))
 
 
+def d1r_data_not_rebound(chk: Check, funcs: List[FuncInfo]) -> None:
+    """The container named as `parent` in a result must be the document's
+    own object.  The evaluator functions name their data parameter there,
+    so that parameter may be re-bound only to something that is still in
+    the document: the node of the NodeCoords it held, or a container popped
+    off the ancestry.  A copy (an unwrapped or filtered list) has equal
+    content and passes every value-level check, but deleting or setting
+    through it does not touch the document."""
+    chk.rule("C02-D1r", "the data parameter of an evaluator function is "
+             "re-bound only to an object of the document (`<data>.node`, an "
+             "ancestry entry)", floor=2)
+    n = 0
+    for fi in funcs:
+        ps = fi.params()
+        if not ps:
+            continue
+        data = ps[1] if ps[0] == "self" and len(ps) > 1 else ps[0]
+        if data not in ("data",) and "data" not in data:
+            continue
+        for a in walk_local(fi.node):
+            if not isinstance(a, (ast.Assign, ast.AnnAssign)):
+                continue
+            tg = a.targets if isinstance(a, ast.Assign) else [a.target]
+            hit = any(isinstance(x, ast.Name) and x.id == data and
+                      isinstance(x.ctx, ast.Store)
+                      for t in tg for x in ast.walk(t))
+            if not hit or a.value is None:
+                continue
+            n += 1
+            v = src(a.value)
+            text = "{}: {}".format(fi.short, src(a)[:60])
+            if v == data + ".node" or (
+                    isinstance(a.value, ast.Call) and
+                    isinstance(a.value.func, ast.Attribute) and
+                    a.value.func.attr == "pop" and
+                    "ancestry" in src(a.value.func.value)):
+                chk.ok("C02-D1r", fi, a, text, "still an object of the "
+                       "document")
+            else:
+                chk.fail("C02-D1r", fi, a, text,
+                         "`{}` is re-bound to `{}`; results built afterwards "
+                         "name that object as their parent, and it is not "
+                         "(known to be) the container the document holds"
+                         .format(data, v[:50]))
+    if n < 2:
+        raise AnalysisError("re-bindings of data parameters not found")
+
+
 def run(chk: Check) -> None:
     funcs = evaluator_functions(chk.prog)
     d1_sites(chk, funcs)
+    d1r_data_not_rebound(chk, funcs)
     d2_calls(chk, funcs)
     d3_immutable(chk, funcs)
     d5_alphabet(chk)
